@@ -155,7 +155,25 @@ func (g *Gen) accelPattern() *Tree {
 	}
 	set := func() *Tree { return Class(false, [2]int{'a', 'b'}) }
 	body := func() *Tree { g.bud = 4; return g.seq(2, 2) }
-	switch g.pick(12) {
+	switch g.pick(14) {
+	case 12, 13: // an iterated body: letter, loop, nullable loop - what follows a loop is the body's own start on the next iteration
+		ab := func() *Tree {
+			if g.chance(0.3) {
+				return Class(false, [2]int{'a', 'a'}, [2]int{'b', 'b'})
+			}
+			return Lit([]int{'a', 'b'}[g.pick(2)])
+		}
+		inner := T("cat", ab(), Rep(ab(), g.pick(2), -1, g.chance(0.2)), Rep(Lit([]int{'a', 'b', 'c'}[g.pick(3)]), 0, []int{1, -1}[g.pick(2)], g.chance(0.2)))
+		var loop *Tree
+		switch g.pick(3) {
+		case 0:
+			loop = Rep(inner, 2+g.pick(2), 2+g.pick(2)+g.pick(2), g.chance(0.3))
+		case 1:
+			loop = Rep(Grp("", inner), 1+g.pick(2), -1, g.chance(0.3))
+		default:
+			loop = Rep(inner, 2, 2, false)
+		}
+		return T("cat", loop, Lit([]int{'a', 'b', 'c'}[g.pick(3)]))
 	case 0: // leading string
 		return T("cat", lit(2+g.pick(3)), body())
 	case 1: // leading strings (alternation of literals)
